@@ -102,3 +102,11 @@ def nontrivial(r):
                 if runs[k] >= 2 and k in pending_mut:
                     mutated_between = True
     return mutated_between
+
+
+# ---- asyncio share ("in both front ends")
+from .. import aiomix  # noqa: E402
+from . import c17 as _c17  # noqa: E402
+
+aiomix.install(globals(), 0.25, lambda rng: aiomix.stream(rng, _c17.scenarios, tweak=lambda rng_, s: aiomix.c19_tweak(rng_, dict(s, _no_solo=True))), aiomix.c19_specs,
+               note="args / kwargs of all shapes, mutation of the caller's dict / tag set and of the returned tag set between runs; Spec: every coroutine start received exactly the original arguments, tag queries select by the original tags")
